@@ -48,8 +48,10 @@ fn sampled(rng: &mut Rng) -> Scenario {
             if rng.bool(0.15) {
                 sc.min_step = Some(sc.span() * rng.logu(1e-6, 1e-3));
             }
-            if rng.bool(0.1) && sc.entry == Entry::Low {
-                sc.first_step = Some(sc.span() * rng.logu(1e-5, 0.5));
+            if rng.bool(0.15) {
+                // (often larger than the step the tolerance allows: the first attempt is rejected
+                // and the output handler skips the shorter steps before x0 + first_step)
+                sc.first_step = Some(sc.dir() * sc.span() * rng.logu(1e-5, 0.6));
             }
         }
         if sc.entry == Entry::Low {
